@@ -102,6 +102,17 @@ def bytes_method(I: Interp, recv: VBytes, name: str, args: list[V], kwargs: dict
         if name == "hex":
             return VStr()
         raise Unsupported(f"ascii-bytes method {name}")
+    c0 = recv.concrete()
+    if c0 is not None and name in ("startswith", "endswith", "index", "find", "split", "strip",
+                                   "rstrip", "lstrip", "count", "rfind", "upper", "lower"):
+        # concrete receiver and arguments: CPython itself is the contract
+        from . import models as _m
+        pyargs = [_m._concrete_py(a) for a in args]
+        if _m._NOCONC not in pyargs:
+            try:
+                return wrap(getattr(c0, name)(*pyargs))
+            except ValueError as e:
+                I.raise_py(ValueError, str(e))
     if name == "hex":
         c = recv.concrete()
         if c is not None and not args:
